@@ -6,7 +6,7 @@ TECHNIQUE = "per-configuration re-verification (CBMC): the same contracts are di
 LEVEL_TEXT = ("A relational property over compile-time switches becomes: the same contracts - whose postconditions fix results as functions of the arguments - are discharged under the "
               "default build, CELLO_NDEBUG (checks compiled out, one-word headers), the method cache disabled (CELLO_CACHE defined) and CELLO_NGC. Two configurations that both satisfy a "
               "deterministic contract agree on every in-contract call of that function. Covered: Int/Float cmp, the six predicates, hash and assign of Int/Float, hash_data, memswap, the "
-              "cmp/hash dispatch, type-class lookup for Int, Array and File, alloc/del of Int, and the in-range Array and List operations at length <= 2. CBMC checks the absence of undefined "
+              "cmp/hash dispatch, the assign dispatcher, String assign/concat/resize (also with overlapping operands), type-class lookup for Int, Array and File, alloc/del of Int, and the in-range Array and List operations at length <= 2. CBMC checks the absence of undefined "
               "behaviour in these functions, which is what makes optimisation levels agree for them; compiler correctness is assumed.")
 NOTE = "only the functions under contract listed in the evidence; workloads through other functions, optimisation levels and compiler correctness are not decided"
 EXPLANATION = LEVEL_TEXT
@@ -18,7 +18,9 @@ def base_jobs(tier):
     from props import C08, C09, C10, C19, seqcases
     J = []
     J += [j for j in C09.jobs("quick") if re.search(r"C09\.(Int_Cmp|Float_Cmp|eq|neq|gt|lt|ge|le)\.k1$|C09\.dispatch\.cmp_(int|float|default)$", j.name)]
-    J += [j for j in C10.jobs("quick") if re.search(r"C10\.(Int_Hash|Int_Assign|Float_Assign|hash_data)\.k1$|C10\.dispatch\.hash_(int|float|default)$|C10\.memswap\.len(0|9|12)$", j.name)]
+    J += [j for j in C10.jobs("quick") if re.search(r"C10\.(Int_Hash|Int_Assign|Float_Assign|hash_data)\.k1$|C10\.dispatch\.hash_(int|float|default)$|C10\.memswap\.len(0|9|12)$|C10\.assign\.k2$", j.name)]
+    from props import C16
+    J += [j for j in C16.jobs("quick") if re.search(r"C16\.String\.(assign|concat)\.a2\.b1$|C16\.String\.(assign_alias|concat_alias)\.a2\.alias[12]$|C16\.String\.resize\.a2\.to1$", j.name)]
     J += [j for j in C08.jobs("quick") if re.search(r"C08\.dispatch\.(Int|Array|File)$", j.name)]
     J += [j for j in C19.jobs("quick") if re.search(r"C19\.(alloc|del|dealloc_heap)\.Int$|C19\.header_init\.k1$", j.name)]
     def in_range(j):
